@@ -143,7 +143,8 @@ def track(case):
     applied items, fields list.  -> rm: key -> rule conditions match; ls: key -> log source the item sees;
     final attributes"""
     ls0 = case["rule"].get("logsource", {})
-    st = {"logsource": {a: ls0.get(a) for a in ("category", "product", "service")}, "custom": {}, "state": {}, "applied": [],
+    custom0 = {k: v for k, v in case["rule"].items() if k not in ("title", "logsource", "detection", "fields")}
+    st = {"logsource": {a: ls0.get(a) for a in ("category", "product", "service")}, "custom": custom0, "state": {}, "applied": [],
           "fields": list(case["rule"].get("fields", []))}
     rm, ls = {}, {}
     def walk(items, prefix, live):
@@ -1133,6 +1134,11 @@ def gen_attr_chain(rng, rule):
         items.append(gen_attr_reader(rng, rule, first))
     if rng.random() < 0.15:
         items.insert(1, gen_rule_level(rng, rule))
+    if rng.random() < 0.2 and first["type"] in ("set_custom_attribute", "set_state"):
+        # the same key set again (the later value counts)
+        again = dict(first, id="R2")
+        again["value" if first["type"] == "set_custom_attribute" else "val"] = rng.choice(["again", "prod", "v"])
+        items.insert(1, again)
     if rng.random() < 0.15:
         items = [{"type": "nest", "items": items}]
     return items
@@ -1455,6 +1461,8 @@ def gen_tr(tier, rng):
             rule["fields"] = rng.sample(C_FIELDS + ["other"], rng.randint(1, 3))
         elif rng.random() < 0.15:
             rule["fields"] = [rng.choice(C_FIELDS + ["other"]) for _ in range(rng.randint(2, 4))]    # with repetitions
+        if rng.random() < 0.1:
+            rule[rng.choice(["myattr", "env"])] = rng.choice(["dev", "prod"])       # custom attribute of the rule document
         identity = rng.random() < 0.25
         r = rng.random()
         if rng.random() < 0.2:
@@ -1685,6 +1693,7 @@ def all_plains(case, r):
     vars_ = case["pipeline"].get("vars", {})
     drawn = drawn_names(case, r["rin"], r["rout"])
     rm = rule_matches(case)
+    repl = []
     for k, item in enumerate(case["pipeline"]["transformations"]):
         p = parse_item(item, str(k), r["added"], drawn, rm)
         steps = [(p[1], p[2])] if p[0] == "item" else (p[2] if p[1]["rule"] else [])
@@ -1692,6 +1701,16 @@ def all_plains(case, r):
             docs, expr = rewrite_step(c, ts, vars_, docs, expr)
             for _, d in docs:
                 doc_plains(d, out)
+            if ts[0] == "replace":
+                repl.append(ts)
+    # where model and rewrite part ways (known findings) the model meets values the rewrite never has: close the
+    # table under the substitutions of the pipeline
+    for _ in range(len(repl)):
+        for ts in repl:
+            for p0 in list(out):
+                new = re.sub(ts[1], ts[2], p0)
+                out.add(new)
+                out.add(plain_of(sparse(re.sub(r"\\(?![*?])", r"\\\\", new))))
     return sorted(out)
 
 
